@@ -328,7 +328,14 @@ func wide(c *simkit.Choices, x *simkit.Ctx) *simkit.Violation {
 		Note: fmt.Sprintf("document 0 holds the %d distinct keys %q..%q (hex omitted)", n, key(0), key(n-1))}
 	var docs [][]byte
 	for i, v := range []model.Val{first, again, again} {
-		b := write(c, f, v).Bytes
+		var b []byte
+		if i == 0 && len(v.Keys) > 100000 {
+			// (10^6 members: encoded by hand, with heartbeats - the general
+			// writers draw several choices per token)
+			b = plainObject(f, v, x)
+		} else {
+			b = write(c, f, v).Bytes
+		}
 		if f == model.JSON {
 			b = append(b, '\n')
 		}
@@ -580,4 +587,73 @@ func trunc(s string, n int) string {
 		return s[:n] + "…"
 	}
 	return s
+}
+
+// plainObject encodes an object of string keys and small non-negative integer
+// values in the plainest form of the format.
+func plainObject(f model.Format, v model.Val, x *simkit.Ctx) []byte {
+	var b []byte
+	head := func(major byte, n int) {
+		switch {
+		case n < 24:
+			b = append(b, major<<5|byte(n))
+		case n < 1<<8:
+			b = append(b, major<<5|24, byte(n))
+		case n < 1<<16:
+			b = append(b, major<<5|25, byte(n>>8), byte(n))
+		default:
+			b = append(b, major<<5|26, byte(n>>24), byte(n>>16), byte(n>>8), byte(n))
+		}
+	}
+	ulen := func(n int) {
+		switch {
+		case n < 1<<7:
+			b = append(b, 'i', byte(n))
+		case n < 1<<15:
+			b = append(b, 'I', byte(n>>8), byte(n))
+		default:
+			b = append(b, 'l', byte(n>>24), byte(n>>16), byte(n>>8), byte(n))
+		}
+	}
+	switch f {
+	case model.JSON:
+		b = append(b, '{')
+	case model.CBOR:
+		b = append(b, 0xbf)
+	default:
+		b = append(b, '{')
+	}
+	for i, k := range v.Keys {
+		if i&0xffff == 0 {
+			x.Alive()
+		}
+		val := int(v.A[i].U)
+		switch f {
+		case model.JSON:
+			if i > 0 {
+				b = append(b, ',')
+			}
+			b = append(b, '"')
+			b = append(b, k...)
+			b = append(b, '"', ':')
+			b = strconv.AppendInt(b, int64(val), 10)
+		case model.CBOR:
+			head(3, len(k))
+			b = append(b, k...)
+			head(0, val)
+		default:
+			ulen(len(k))
+			b = append(b, k...)
+			b = append(b, 'l', byte(val>>24), byte(val>>16), byte(val>>8), byte(val))
+		}
+	}
+	switch f {
+	case model.JSON:
+		b = append(b, '}')
+	case model.CBOR:
+		b = append(b, 0xff)
+	default:
+		b = append(b, '}')
+	}
+	return b
 }
